@@ -91,6 +91,8 @@ func codeByName(n string) codes.Code {
 		return codes.Internal
 	case "Unavailable":
 		return codes.Unavailable
+	case "NotFound":
+		return codes.NotFound
 	}
 	ev.HarnessError("unknown code %q", n)
 	return codes.OK
